@@ -158,7 +158,8 @@ Proof. intros H. apply skip_go_shrinks in H. unfold zlen. lia. Qed.
 Corollary skip_struct_fuel_stable d f bs : (length bs < f)%nat ->
   skip_fields (skip d) f bs = skip (S d) T_STRUCT bs.
 Proof.
-  intros Hf. rewrite skip_S. cbn. apply skip_fields_fuel_stable; [|assumption|lia].
+  intros Hf. change (skip (S d) T_STRUCT bs) with (skip_fields (skip d) (S (length bs)) bs).
+  apply skip_fields_fuel_stable; [|assumption|lia].
   intros t b r H. apply skip_shrinks in H. lia.
 Qed.
 
@@ -168,8 +169,15 @@ Definition suffix_of (r bs : list Z) : Prop := exists n, r = skipn n bs.
 Lemma suffix_refl bs : suffix_of bs bs.
 Proof. exists 0%nat. reflexivity. Qed.
 
+Lemma skipn_skipn_add {A} : forall m (l : list A) n, skipn n (skipn m l) = skipn (m + n) l.
+Proof.
+  induction m as [|m IH]; intros l n; [reflexivity|]. destruct l as [|x l]; cbn [skipn Nat.add].
+  - destruct n; reflexivity.
+  - apply IH.
+Qed.
+
 Lemma suffix_trans a b c : suffix_of a b -> suffix_of b c -> suffix_of a c.
-Proof. intros [n ->] [m ->]. exists (n + m)%nat. apply skipn_skipn. Qed.
+Proof. intros [n ->] [m ->]. exists (m + n)%nat. apply skipn_skipn_add. Qed.
 
 Lemma suffix_skipn n bs : suffix_of (skipn n bs) bs.
 Proof. exists n. reflexivity. Qed.
@@ -270,7 +278,7 @@ Proof.
   rewrite skipn_length in Hl. exists (Nat.min n (length bs)). split; [lia|].
   destruct (Nat.le_ge_cases n (length bs)).
   - rewrite Nat.min_l by assumption. reflexivity.
-  - lia.
+  - rewrite Nat.min_r by assumption. rewrite skipn_all. apply skipn_all2. assumption.
 Qed.
 
 (* ---- the byte-level searches ---- *)
